@@ -242,6 +242,27 @@ def check(run):
     run.floor('compile-fail witnesses', witnesses(run), 12)
     nv, _ = value_results(run, m, F, E)
     run.floor('functions returning a library object by reference', nv, 60)
+    # R04.9: "owns its own storage" is a statement about every value a member of ST::buffer<char> leaves behind - the storage ST::string
+    # wraps.  The owner analysis of C05 (class invariant: short contents in the object, long ones in an exclusively owned block, the
+    # pointer and the size class agreeing) is run here for the char buffer and owned by this property as well: a copy, an
+    # assignment or an allocate() that leaves the pointer and the size class disagreeing makes later copies read the wrong array
+    from . import c05, own
+    Lc = own.buffer_layout(m, 'char')
+    run.need(Lc is not None, 'layout of ST::buffer<char> not recognised')
+    sub = type(run)(run.prop, run.tier)
+    seen = set()
+    k = 0
+    for f in c05.owner_methods(m, F, E, Lc):
+        if f.name in seen:
+            continue
+        seen.add(f.name)
+        c05.analyse_method(sub, m, F, E, Lc, f)
+        k += 1
+    for o in sub.obs:
+        o = dict(o)
+        o['rule'] = 'R04.9'
+        run.obs.append(o)
+    run.floor('members of ST::buffer<char> under the owner invariant', k, 11)
     # positive control for the expected-zero rule R04.8
     import os
     from .. import facts as factsmod, effects as effmod, frontend
